@@ -5,6 +5,7 @@ This module contains methods for exporting Kern files.
 """
 import math
 from collections import defaultdict
+from fractions import Fraction
 
 import numpy
 
@@ -198,13 +199,24 @@ class KernExporter(object):
             if "dots" in symbolic_duration.keys()
             else ""
         )
-        if "actual_notes" in symbolic_duration.keys() and "normal_notes":
-            kern_base = (
-                int(kern_base)
-                * symbolic_duration["actual_notes"]
-                / symbolic_duration["normal_notes"]
+        if (
+            "actual_notes" in symbolic_duration.keys()
+            and "normal_notes" in symbolic_duration.keys()
+        ):
+            # the reciprocal value of a tuplet member, as an exact number:
+            # "12" (not "12.0", whose ".0" reads as a dot), or "3%2" if not integer
+            if int(kern_base) > 0:
+                reciprocal = Fraction(int(kern_base))
+            else:
+                # "0" is a breve (two wholes), "00" a long, "000" a maxima
+                reciprocal = Fraction(1, 2 ** len(kern_base))
+            reciprocal *= Fraction(
+                symbolic_duration["actual_notes"], symbolic_duration["normal_notes"]
             )
-            kern_base = str(kern_base)
+            if reciprocal.denominator == 1:
+                kern_base = str(reciprocal.numerator)
+            else:
+                kern_base = f"{reciprocal.numerator}%{reciprocal.denominator}"
         return kern_base + dots
 
     def duration_to_kern(self, element: spt.GenericNote) -> str:
